@@ -218,3 +218,55 @@ Proof.
   intros H. cbn [parse]. unfold parse_varint. rewrite iavail_at.
   rewrite varint_loop_all_cont by (assumption || lia). reflexivity.
 Qed.
+
+(* ---- Flag: any non-zero byte parses as True, and True re-encodes canonically as 01 ---- *)
+Theorem flag_canonical : forall b rest pre base sk cx p cx' p' o,
+  app_mode o ->
+  exists v, parse CFlag cx p (at_pos pre ([b] ++ rest) base sk) = Ok (VBool v, at_pos (pre ++ [b]) rest base sk) /\
+            v = negb (Byte.eqb b x00) /\
+            build CFlag (VBool v) cx' p' o = Ok (VBool v, oapp o [if v then x01 else x00]) /\
+            parse CFlag cx p (at_pos pre ([if v then x01 else x00] ++ rest) base sk) =
+              Ok (VBool v, at_pos (pre ++ [if v then x01 else x00]) rest base sk).
+Proof.
+  intros b rest pre base sk cx p cx' p' o Ho. exists (negb (Byte.eqb b x00)).
+  assert (P : forall c, parse CFlag cx p (at_pos pre ([c] ++ rest) base sk) = Ok (VBool (negb (Byte.eqb c x00)), at_pos (pre ++ [c]) rest base sk)).
+  { intros c. cbn [parse]. change 1%Z with (Z.of_nat (length [c])). rewrite iread_at. cbn [bind bytes_eqb].
+    rewrite andb_true_r. reflexivity. }
+  split; [apply P|]. split; [reflexivity|]. split.
+  - cbn [build truthy]. change 1%Z with (Z.of_nat (length [if negb (Byte.eqb b x00) then x01 else x00])).
+    rewrite owrite_app by exact Ho. reflexivity.
+  - rewrite P. destruct (Byte.eqb b x00); reflexivity.
+Qed.
+
+(* ---- integers have exactly one accepted encoding: parsing then building reproduces the input bytes ---- *)
+Theorem bytesint_parse_then_build : forall n s sw d rest pre base sk cx p cx' p' o,
+  (0 < n <= 65536)%Z -> Z.of_nat (length d) = n -> app_mode o ->
+  exists z, parse (CBytesInt (kint n) s sw) cx p (at_pos pre (d ++ rest) base sk) = Ok (VInt z, at_pos (pre ++ d) rest base sk) /\
+            build (CBytesInt (kint n) s sw) (VInt z) cx' p' o = Ok (VInt z, oapp o d).
+Proof.
+  intros n s sw d rest pre base sk cx p cx' p' o Hn Hl Ho.
+  eexists. split; [apply bytesint_parse; lia|].
+  assert (Hd : endian_of sw d <> []).
+  { intros E. apply (f_equal (@length byte)) in E. rewrite endian_of_length in E. cbn in E. lia. }
+  pose proof (integer2bytes_bytes2integer (endian_of sw d) s _ (bytes2integer_ne _ s Hd)) as Hi.
+  rewrite endian_of_length in Hi.
+  cbn [build int_of_val]. rewrite eval_int_kint. cbn [bind].
+  destruct (n <=? 0)%Z eqn:E1; [lia|]. destruct (65536 <? n)%Z eqn:E2; [lia|].
+  replace (Z.to_nat n) with (length d) by lia. rewrite Hi.
+  unfold swapbytes. fold (endian_of sw (endian_of sw d)). rewrite endian_of_invol.
+  rewrite <- Hl. rewrite owrite_app by exact Ho. reflexivity.
+Qed.
+
+(* ---- VarInt: every well-formed (possibly non-minimal) encoding is accepted and re-encoded canonically ---- *)
+Theorem varint_normalises : forall enc n rest pre base sk cx p cx' p' o,
+  leb128 n enc -> app_mode o ->
+  parse CVarInt cx p (at_pos pre (enc ++ rest) base sk) = Ok (VInt (Z.of_N n), at_pos (pre ++ enc) rest base sk) /\
+  build CVarInt (VInt (Z.of_N n)) cx' p' o = Ok (VInt (Z.of_N n), oapp o (varint_encode n)) /\
+  parse CVarInt cx p (at_pos pre (varint_encode n ++ rest) base sk) = Ok (VInt (Z.of_N n), at_pos (pre ++ varint_encode n) rest base sk).
+Proof.
+  intros enc n rest pre base sk cx p cx' p' o Hl Ho. split; [|split].
+  - cbn [parse]. rewrite (varint_parse_spec _ n) by exact Hl. reflexivity.
+  - cbn [build int_of_val]. destruct (Z.of_N n <? 0)%Z eqn:E; [lia|]. rewrite N2Z.id.
+    rewrite owrite_app by exact Ho. reflexivity.
+  - cbn [parse]. rewrite (varint_parse_spec _ n) by apply varint_encode_leb. reflexivity.
+Qed.
